@@ -19,6 +19,8 @@ through an `SrkOracle` (every theorem holds for every oracle that recognises the
 -/
 import SpsdkVerif.Model.Dat
 import SpsdkVerif.Proofs.Dat
+import SpsdkVerif.Model.DatV2
+import SpsdkVerif.Proofs.DatV2
 import SpsdkVerif.Crypto.Break
 import SpsdkVerif.Spec.Rotkh
 
@@ -354,6 +356,113 @@ theorem dac_validate_sound (row : DatRow) (a : DAC) (dc : DC) (hsh : PyRes Bytes
                 · split at h
                   · rename_i hc; exact .inr (.inr (.inr hc))
                   · cases h
+
+/-! ## 8. EdgeLock-enclave v2 credential (AHAB certificate; Model/DatV2.lean) -/
+
+section V2
+open SpsdkVerif.DatV2
+
+/-- the certificate head as the current source packs / unpacks it: byte widths (C06's generated layout), argument order of the
+    `pack` call, what follows the head in the signed data and in the export, the unpack targets of `parse` by the attribute they
+    feed, the inverted-permission check, the permission data `socc ‖ socu ‖ 0` and the positions the three properties use -/
+theorem gen_cert_layout :
+    AhabConsts.certificateLayout.intWidths = [1, 2, 1, 2, 1, 1, 1, 1, 2] ∧
+    AhabConsts.certificateLayout.strFields = [(6, 12), (10, 16)] ∧ AhabConsts.certificateLayout.size = 40 ∧
+    AhabConsts.signatureLayout.intWidths = [1, 2, 1, 4] ∧ AhabConsts.signatureLayout.size = 8 ∧
+    AhabConsts.certificateTag = 175 ∧ AhabConsts.certificateVersion = 2 ∧ AhabConsts.signatureTag = 216 ∧
+    AhabConsts.signatureVersion = 0 ∧ AhabConsts.srkRecordTag = 225 ∧
+    DatConsts.certPackArgs = ["self.version", "self.length", "self.tag", "self.signature_offset", "~self._permissions & 255",
+      "self._permissions", "extend_block(self.permission_data, self.PERMISSION_DATA_SIZE, padding=RESERVED)", "self.fuse_version",
+      "RESERVED", "RESERVED", "extend_block(self._uuid or b'', self.UUID_SIZE, padding=RESERVED)"] ∧
+    DatConsts.certSignedTail.take 2 = ["self.public_key_0.export()", "self.public_key_0.srk_data.export()"] ∧
+    DatConsts.certExportTail.take 1 = ["self.signature_0.export()"] ∧
+    DatConsts.certParseTargets = ["_", "length", "_", "signature_offset", "local", "permissions", "permissions_data",
+      "fuse_version", "_", "_", "uuid"] ∧
+    DatConsts.certInvertedCheck = ["«local» != ~«permissions» & 255"] ∧
+    DatConsts.certPermDataSize = 12 ∧ DatConsts.certUuidSize = 16 ∧ DatConsts.certPermDebug = 2 ∧
+    DatConsts.v2CreatePermData = ["socc", "socu", "0"] ∧
+    DatConsts.v2PermProps = ["socu:get:<LLL:[1]", "socu:set:<LLL:self.socc,value,self.beacon", "socc:get:<LLL:[0]",
+      "socc:set:<LLL:value,self.socu,self.beacon", "beacon:get:<LLL:[2]", "beacon:set:<LLL:self.socc,self.socu,value"] := by
+  decide
+
+/-- every EdgeLock v2 row of the database has a 32-bit SoC class whose low byte is not zero (so that the detour of the
+    permission data through `value_to_bytes` keeps its 12 bytes) -/
+theorem gen_v2_rows : DatConsts.rows.all (fun r => !(r.basedOnEle && r.eleCntVersion == 2) ||
+    (decide (r.socc % 256 ≠ 0) && decide (r.socc < 4294967296))) = true := by decide +kernel
+
+/-- **dcv2_export_spec**: a signed one-key certificate exports as documented head ‖ key block ‖ signature container -/
+theorem dcv2_export_spec (ko : KeyOracle) (c : Cert) (h : WFCert ko c) :
+    exportCert c = .ok ((specHead c ++ c.key0) ++ specSigContainer c.sig0) := (DatV2.export_spec ko c h).2
+
+/-- **dcv2_roundtrip**: parsing the exported credential (followed by anything) — `AhabCertificate.parse` and the
+    `DebugCredentialEdgeLockEnclaveV2` wrapper — gives back every field, the SoC class included -/
+theorem dcv2_roundtrip (ko : KeyOracle) (c : Cert) (h : WFCert ko c) :
+    ∃ b, exportCert c = .ok b ∧ ∀ t, parseV2 ko (b ++ t) = .ok (some c) :=
+  ⟨_, dcv2_export_spec ko c h, fun t => v2_roundtrip ko c h t⟩
+
+/-- **dcv2_signed_range**: the signed data is the export up to `signature_offset` — version, length, tag, offsets, permissions,
+    SoC class ‖ CC_SOCU ‖ beacon, fuse version, UUID and the key block; only the signature container follows -/
+theorem dcv2_signed_range (ko : KeyOracle) (c : Cert) (h : WFCert ko c) (b : Bytes) (hb : exportCert c = .ok b) :
+    signedData c = .ok (b.take c.sigOffset) ∧ b = b.take c.sigOffset ++ specSigContainer c.sig0 ∧ b.length = c.length := by
+  rw [dcv2_export_spec ko c h] at hb
+  injection hb with hb
+  subst hb
+  have hl : (specHead c ++ c.key0).length = c.sigOffset := by
+    rw [List.length_append, specHead_length c h.permData h.uuid, h.sigOffset, DatV2.consts.1]
+  refine ⟨?_, ?_, ?_⟩
+  · rw [List.take_left' hl]; exact (DatV2.export_spec ko c h).1
+  · rw [List.take_left' hl]
+  · rw [List.length_append, hl, specSig_length, h.length, h.sigOffset, DatV2.consts.2.1]
+
+/-- **dcv2_keeps_socc**: constructing the credential object around a certificate (on creation and on parse) leaves the
+    permission data — SoC class first — as it is (the initializer used to overwrite the SoC class with 0) -/
+theorem dcv2_keeps_socc (c : Cert) (h : c.permData.length = 12) : wrap c = .ok c := wrap_id c h
+
+/-- **dcv2_create_fields**: the created credential carries debug permission and `socc ‖ cc_socu ‖ 0`, which the `socc` / `socu` /
+    `beacon` properties read back -/
+theorem dcv2_create_fields (socc socu fuse : Nat) (uuid key0 : Bytes) (h1 : socc < 4294967296) (h2 : socu < 4294967296) :
+    ∃ c, create socc socu fuse uuid key0 = .ok c ∧ c.permissions = 2 ∧ c.permData = leEnc 4 socc ++ (leEnc 4 socu ++ leEnc 4 0) ∧
+      permSocc c.permData = socc ∧ permSocu c.permData = socu ∧ permBeacon c.permData = 0 := by
+  obtain ⟨a, b, d⟩ := perm_fields socc socu 0 h1 h2 (by decide)
+  exact ⟨_, create_spec socc socu fuse uuid key0, (by decide : DatConsts.certPermDebug = 2), rfl, a, b, d⟩
+
+/-- `sign()` (`update_fields`) yields a well-formed certificate … -/
+theorem dcv2_signed_wf (cr : CryptoOps) (a : SigAlg) (sk : PrivKey) (rnd : Rand) (sigLen : Nat) (ko : KeyOracle) (c c' : Cert)
+    (hs : signCert cr a sk rnd sigLen c = .ok c') (hp : c.permissions < 256) (hf : c.fuseVersion < 256)
+    (hpd : c.permData.length = 12) (hu : c.uuid.length = 16) (hk : ∀ rest, ko (c.key0 ++ rest) = some c.key0.length)
+    (hsl : c'.sig0.length = sigLen) (hpos : 0 < sigLen) (hsm : headSize + c.key0.length + (sigHeadSize + sigLen) < 65536) :
+    WFCert ko c' := sign_wf cr a sk rnd sigLen ko c c' hs hp hf hpd hu hk hsl hpos hsm
+
+/-- … **dcv2_sig_verifies**: whose signature verifies under the public key of the signing key over its signed data -/
+theorem dcv2_sig_verifies (cr : CryptoOps) (hl : CryptoLaws cr) (a : SigAlg) (sk : PrivKey) (rnd : Rand) (sigLen : Nat) (c c' : Cert)
+    (hs : signCert cr a sk rnd sigLen c = .ok c') :
+    ∃ m, signedData c' = .ok m ∧ cr.verify a (cr.pubOf sk) m c'.sig0 = true := by
+  unfold signCert at hs
+  dsimp only at hs
+  split at hs
+  · rename_i m hm
+    injection hs with hs
+    subst hs
+    refine ⟨m, ?_, hl.verify_sign _ _ _ _⟩
+    simpa [signedData, certHead] using hm
+  · cases hs
+
+/-- non-vacuity: a concrete signed certificate (SRK record ‖ SRK data recognised by the driver's walker) is well-formed and
+    goes through export and parse -/
+def exKey : Bytes := [0xE1, 12, 0, 0x27, 0, 1, 0, 0, 0, 0, 0, 0] ++ [0, 8, 0, 0x5D, 0, 0, 0, 0]
+def exCert : Cert := ⟨40 + 20 + (8 + 64), 60, 2, permPack 0x4D58005E 0xFFF 0, 1, List.replicate 16 7, exKey, List.replicate 64 9⟩
+
+theorem exKey_walk (rest : Bytes) : keyWalk (exKey ++ rest) = some exKey.length := by
+  simp only [keyWalk, exKey, List.cons_append, List.nil_append, List.length_cons, List.drop_succ_cons, List.drop_zero,
+    List.take_succ_cons, List.take_zero, List.getD_cons_zero, List.getD_cons_succ]
+  simp [AhabConsts.srkRecordTag, AhabConsts.srkRecordV2Layout, AhabConsts.srkDataLayout, leDec, beDec]
+
+example : WFCert keyWalk exCert :=
+  ⟨by decide, by decide, by decide, by decide, by decide, by decide, by decide, by decide, exKey_walk⟩
+example : (exportCert exCert).toOption.map List.length = some 132 := by decide +kernel
+example : (exportCert exCert).toOption.map (parseV2 keyWalk ·) = some (.ok (some exCert)) := by decide +kernel
+
+end V2
 
 /-! ## 7. Non-vacuity: a well-formed credential exists for every protocol version of the generated table and every class -/
 
